@@ -27,6 +27,23 @@ func init() {
 	c19NamePool = append(c19NamePool, "clients/acme", "a/b/c", "dot.klg", "../up", "x:y", "@clients/acme")
 }
 
+// c19RandomName draws an arbitrary valid-UTF-8 name (1-8 characters) that does not start with '-' and does not contain " -> " or a newline.
+func c19RandomName(r *core.Rand) string {
+	alphabet := []string{"a", "b", "Z", "0", "9", " ", "'", "\"", "\\", "@", ".", "/", ":", ";", "é", "ß", "日", "😀", "_", "-", "~", "#", "%", "&", "=", "(", ")", "é"}
+	for {
+		n := r.Range(1, 8)
+		var sb strings.Builder
+		for i := 0; i < n; i++ {
+			sb.WriteString(alphabet[r.Intn(len(alphabet))])
+		}
+		s := sb.String()
+		if strings.HasPrefix(s, "-") || strings.Contains(s, " -> ") || strings.TrimLeft(s, "@") == "" || strings.TrimSpace(s) != s {
+			continue
+		}
+		return s
+	}
+}
+
 func c19Norm(name string) string {
 	n := strings.TrimLeft(name, "@")
 	if n == "" {
@@ -97,6 +114,10 @@ func c19History(e *core.Env, r *core.Rand, idx int64) {
 	nN := r.Range(2, 6)
 	var names []string
 	for len(names) < nN {
+		if r.Chance(1, 3) {
+			names = append(names, c19RandomName(r))
+			continue
+		}
 		names = append(names, c19NamePool[r.Intn(len(c19NamePool))])
 	}
 	useBin := idx%16 == 5 && e.KlogBin != ""
